@@ -8,6 +8,13 @@ struct Twin {
   int start(const Chain &c) { ms = MemSrc(); ms.data = &c.bytes; int r = ov_open_callbacks(&ms, &vf, NULL, 0, ms_callbacks(true)); open = r == 0; return r; }
 };
 
+// application filter for ov_read_filter: a gain (not idempotent, so a sample filtered twice or not at all shows in the words)
+struct Gain { float g; long calls = 0, samples = 0; long last_channels = -1; };
+static void gain_filter(float **pcm, long channels, long samples, void *param) {
+  Gain *gp = (Gain *)param; gp->calls++; gp->samples += samples; gp->last_channels = channels;
+  for (long c = 0; c < channels; c++) for (long i = 0; i < samples; i++) pcm[c][i] *= gp->g;
+}
+
 bool prop_run(Tape &t, Report &r) {
   ChainOpts o; o.maxlinks = 3; o.maxN = 20000; o.comments = false; o.vgen_pct = 50; o.vgen_big = true; o.maxch = 8; if (t.chance(1, 12)) o.vgen_maxch = 255;
   bool want_hs = t.chance(1, 6); o.even_interior = want_hs;   // odd-length interior links make half-rate positions ambiguous (DESIGN 3.21): not generated here
@@ -39,7 +46,10 @@ bool prop_run(Tape &t, Report &r) {
     int len;
     { int cls = t.weighted({6, 3, 2, 1}); len = cls == 0 ? 1 + (int)t.below(9000) : cls == 1 ? (int)t.below(40) : cls == 2 ? 1 + (int)t.below(65000) : 0; }
     if (op == 3) len = (int)t.below(6);
-    int bsA = -9; long n = ov_read(&A.vf, (char *)buf.data(), len, be, word, sgned, &bsA); hist += sfmt("read(%d,w%d,s%d,be%d)=%ld ", len, word, sgned, be, n);
+    static const float gains[] = {0.5f, -1.f, 2.f, 0.25f, 1.5f, 0.f}; Gain gn{1.f}; bool filt = g_tape_gen >= 3 && op == 0 && t.chance(1, 3); if (filt) gn.g = gains[t.below(6)];
+    int bsA = -9; long n = filt ? ov_read_filter(&A.vf, (char *)buf.data(), len, be, word, sgned, &bsA, gain_filter, &gn) : ov_read(&A.vf, (char *)buf.data(), len, be, word, sgned, &bsA);
+    hist += sfmt("read%s(%d,w%d,s%d,be%d)=%ld ", filt ? sfmt("_filter[x%g]", (double)gn.g).c_str() : "", len, word, sgned, be, n);
+    if (filt && n <= 0 && gn.samples) return r.fail("ov_read_filter returned %ld but handed %ld samples to the filter [hist %s] [%s]", n, gn.samples, hist.c_str(), desc.c_str());
     for (size_t i = (size_t)std::max<long>(n, 0); i < buf.size(); i++) if (buf[i] != 0xA5) return r.fail("ov_read returned %ld but byte %zu of the buffer (length passed %d) was modified [hist %s] [%s]", n, i, len, hist.c_str(), desc.c_str());
     if (n == 0) {   // end of file: the float twin must agree
       float **pcm; int bsB; long m = ov_read_float(&B.vf, &pcm, 64, &bsB);
@@ -69,7 +79,7 @@ bool prop_run(Tape &t, Report &r) {
     if (m != frames || bsB != bsA) return r.fail("ov_read delivered %ld frames of link %d where ov_read_float on the twin handle delivers %ld of link %d [hist %s] [%s]", frames, bsA, m, bsB, hist.c_str(), desc.c_str());
     long clipped = 0, unclipped = 0;
     for (long i = 0; i < frames; i++) for (int q = 0; q < ch; q++) {
-      float x = pcm[q][i]; if (std::isnan(x)) continue;
+      float x = pcm[q][i]; if (filt) x *= gn.g; if (std::isnan(x)) continue;
       float scaled = word == 2 ? x * 32768.f : x * 128.f; double lo = word == 2 ? -32768 : -128, hi = word == 2 ? 32767 : 127;
       double f = floor((double)scaled), cands[2] = {f, f + 1}; int ncand = 2;
       double frac = (double)scaled - f; if (frac < 0.5) ncand = 1; else if (frac > 0.5) { cands[0] = f + 1; ncand = 1; }   // exactly .5: either neighbour
@@ -81,6 +91,7 @@ bool prop_run(Tape &t, Report &r) {
       if (!match) return r.fail("ov_read(word=%d signed=%d bigendian=%d) frame %ld channel %d: got 0x%0*x, the float sample %.9g converts to 0x%0*x [hist %s] [%s]", word, sgned, be, i, q, word * 2, got, x, word * 2, want0, hist.c_str(), desc.c_str());
       if ((double)scaled > hi + 0.5 || (double)scaled < lo - 0.5) clipped++; else unclipped++;
     }
+    if (filt) { r.label("ov_read_filter with a gain filter"); if (gn.last_channels != ch) return r.fail("the filter was called with %ld channels in a %d-channel link [hist %s] [%s]", gn.last_channels, ch, hist.c_str(), desc.c_str()); if (frames < 40 && len < 64) r.label("filtered read shorter than the pending block"); }
     any_clip += clipped; any_unclipped += unclipped;
     if ((clipped && unclipped) || ch > 2) nontriv = true;
     if (clipped && unclipped) r.label("read with clipped and unclipped samples");
